@@ -336,9 +336,20 @@ func (q *DateRangeQuery) Field() string {
 }
 
 func (q *DateRangeQuery) Searcher(i search.Reader, options search.SearcherOptions) (search.Searcher, error) {
-	min, max, err := q.parseEndpoints()
+	_, _, err := q.parseEndpoints()
 	if err != nil {
 		return nil, err
+	}
+
+	// search on the indexed int64 nanoseconds themselves, a detour through their
+	// float64 interpretation would mistake two instants for the infinities
+	min, max := int64(math.MinInt64), int64(math.MaxInt64)
+	inclusiveStart, inclusiveEnd := true, true
+	if !q.start.IsZero() {
+		min, inclusiveStart = q.start.UnixNano(), q.inclusiveStart
+	}
+	if !q.end.IsZero() {
+		max, inclusiveEnd = q.end.UnixNano(), q.inclusiveEnd
 	}
 
 	field := q.field
@@ -350,7 +361,7 @@ func (q *DateRangeQuery) Searcher(i search.Reader, options search.SearcherOption
 		q.scorer = similarity.ConstantScorer(1)
 	}
 
-	return searcher.NewNumericRangeSearcher(i, min, max, q.inclusiveStart, q.inclusiveEnd, field,
+	return searcher.NewNumericRangeSearcherInt64(i, min, max, inclusiveStart, inclusiveEnd, field,
 		q.boost.Value(), q.scorer, similarity.NewCompositeSumScorer(), options)
 }
 
